@@ -66,6 +66,7 @@ pub fn dispatch(op: &str, t: &mut Toks) -> PResult<String> {
         "text.eq" => text_eq(t),
         "enum" => enum_op(t),
         "rt.dns" => rt_dns(t),
+        "mt.dns" => mt_dns(t),
         _ => Err(PErr::Bad),
     }
 }
@@ -875,4 +876,102 @@ fn rt_dns(t: &mut Toks) -> PResult<String> {
     } else {
         Ok("diff".to_string())
     }
+}
+
+
+/// `mt.dns <threads> <reps> <hex>` (C14): decode once and encode the value once on this thread, then
+/// repeat both `reps` times from `threads` threads that share the input buffer and the decoded
+/// value; every result must be identical to the first one and the inputs must be unchanged.
+/// Result: `det dec=<ok|err:Kind> enc=<ok:hex|err:Kind|->` or `nondet <what>`.
+fn mt_dns(t: &mut Toks) -> PResult<String> {
+    use std::sync::Arc;
+    let threads: usize = t.next()?.parse().map_err(|_| PErr::Bad)?;
+    let reps: usize = t.next()?.parse().map_err(|_| PErr::Bad)?;
+    let bytes = one_hex(t)?;
+    if threads == 0 || threads > 64 || reps > 100_000 {
+        return Err(PErr::Uncon);
+    }
+    verif_reset(None);
+    let input = Bytes::from(bytes.clone());
+    let first = Dns::decode(input.clone());
+    let dec_text = match &first {
+        Ok(d) => format!("ok {}", CANON.msg(d)),
+        Err(e) => {
+            let (k, p) = decode_error_kind(e);
+            match p {
+                Some(n) => format!("err {} {}", k, n),
+                None => format!("err {}", k),
+            }
+        }
+    };
+    let (value, enc_first): (Option<Arc<Dns>>, Option<Result<Vec<u8>, String>>) = match first {
+        Ok(d) => {
+            let e = d.encode().map(|b| b.to_vec()).map_err(|e| encode_error_kind(&e).to_string());
+            (Some(Arc::new(d)), Some(e))
+        }
+        Err(_) => (None, None),
+    };
+    let dec_text = Arc::new(dec_text);
+    let enc_first = Arc::new(enc_first);
+    let mut handles = Vec::new();
+    for _ in 0..threads {
+        let input = input.clone();
+        let value = value.clone();
+        let dec_text = dec_text.clone();
+        let enc_first = enc_first.clone();
+        handles.push(std::thread::spawn(move || -> Result<(), String> {
+            for _ in 0..reps {
+                let r = Dns::decode(input.clone());
+                let text = match &r {
+                    Ok(d) => format!("ok {}", CANON.msg(d)),
+                    Err(e) => {
+                        let (k, p) = decode_error_kind(e);
+                        match p {
+                            Some(n) => format!("err {} {}", k, n),
+                            None => format!("err {}", k),
+                        }
+                    }
+                };
+                if text != *dec_text {
+                    return Err("decode result differs".to_string());
+                }
+                if let (Some(v), Some(e0)) = (&value, &*enc_first) {
+                    // shared value, and a fresh clone (fresh Encoder = fresh RandomState each time)
+                    let e1 = v.encode().map(|b| b.to_vec()).map_err(|e| encode_error_kind(&e).to_string());
+                    if &e1 != e0 {
+                        return Err("encode result differs".to_string());
+                    }
+                    if let Ok(d) = &r {
+                        let e2 = d.encode().map(|b| b.to_vec()).map_err(|e| encode_error_kind(&e).to_string());
+                        if &e2 != e0 {
+                            return Err("encode of re-decoded value differs".to_string());
+                        }
+                    }
+                }
+            }
+            Ok(())
+        }));
+    }
+    for h in handles {
+        match h.join() {
+            Ok(Ok(())) => {}
+            Ok(Err(what)) => return Ok(format!("nondet {}", what)),
+            Err(_) => return Ok("nondet thread panicked".to_string()),
+        }
+    }
+    if input.as_ref() != &bytes[..] {
+        return Ok("nondet input buffer modified".to_string());
+    }
+    if let Some(v) = &value {
+        if format!("ok {}", CANON.msg(v)) != *dec_text {
+            return Ok("nondet shared value modified".to_string());
+        }
+    }
+    let dec_short = if dec_text.starts_with("ok") { "ok".to_string() } else { dec_text.replacen("err ", "err:", 1) };
+    let enc_short = match &*enc_first {
+        None => "-".to_string(),
+        Some(Ok(b)) => format!("ok:{}", crate::canon::hex(b)),
+        Some(Err(k)) => format!("err:{}", k),
+    };
+    Ok(format!("det dec={} enc={}", dec_short, enc_short))
 }
